@@ -138,7 +138,15 @@ def check(repo, tier):
                         want = (list(range(0, d - 1)) + list(range(d - 1, -1, -1))) * rep
                     else:
                         want = (list(range(0, d - 2)) + list(range(d - 2, -1, -1))) * rep
-                    good = seq == want
+                    # (solving one and the same micro system twice in a row -- core 0 at the end of a backward and at the start of the next forward half sweep -- is
+                    # idempotent: consecutive repetitions of a site count once)
+                    def collapse(xs):
+                        out = []
+                        for x_ in xs:
+                            if not out or out[-1] != x_:
+                                out.append(x_)
+                        return out
+                    good = collapse(seq) == collapse(want)
                     run.oblige('D3', (entry, scen, 'sequence'), good, sample={'rule': 'D3', 'scenario': scen, 'solved_core_sequence': seq} if d == 3 and rep == 1 and solver == 'solve' and thr == 1e-12 and not mr else None)
                     if not good:
                         fn = repo.fn(entry)
